@@ -157,3 +157,38 @@ contract("monkeytype.stubs:build_module_stubs_from_traces", props=["C01", "C10",
                                     " max_typed_dict_size, rewriter, existing_annotation_strategy))",
                             "defs-modelled": "forall(range_(0, _i), lambda j: (tag_(nth(defns, j), 'FunctionDefinition') is not None and forall(params_of(tag_(nth(defns, j), 'FunctionDefinition').signature), lambda p: (panno(p) is EMPTY or panno(p) is ELLIPSIS_ or wf_rw(panno(p)) or kind(panno(p)) is K_ForwardRef) and panno(p) is not UNION_BARE) and (ret_of(tag_(nth(defns, j), 'FunctionDefinition').signature) is EMPTY or ret_of(tag_(nth(defns, j), 'FunctionDefinition').signature) is ELLIPSIS_ or wf_rw(ret_of(tag_(nth(defns, j), 'FunctionDefinition').signature)) or kind(ret_of(tag_(nth(defns, j), 'FunctionDefinition').signature)) is K_ForwardRef)))"}},
                 "tags": {"index": "DDict:set", "defns": "Seq[FunctionDefinition]"}})
+
+# ---- C12: the decorator and the async keyword follow the function's kind
+_FK = "monkeytype.stubs:FunctionKind"
+_BODY = ("concat(prefix, ite(self.is_async, 'async ', ''), 'def ', unboxs(self.name), render_signature(self.signature,"
+         " 120 - strlen(concat(prefix, ite(self.is_async, 'async ', ''), 'def ', unboxs(self.name))), prefix), ': ...')")
+_STRIPPED = "stripn_(%s, sorted_by_len_desc_(self.strip_modules), len(self.strip_modules))" % _BODY
+contract("monkeytype.stubs:FunctionStub.render", props=["C12", "C11"], theories=TH + ["stubs", "path"],
+         params={"self": "FunctionStub", "prefix": "strp"}, result="strp",
+         requires={"valid": "is_valid_sig(self.signature)", "anno-wf": "forall(params_of(self.signature), lambda p: panno(p) is not UNION_BARE)"},
+         ensures={
+             # `async def` exactly for coroutine functions, the decorator line that matches the kind (none for module-level functions and plain methods),
+             # then the signature text; module prefixes are stripped from that text only (the regex substitution itself is an uninterpreted text function)
+             "post:classmethod": "implies(self.kind is FunctionKind.CLASS, result == concat(prefix, '@classmethod\\n', %s))" % _STRIPPED,
+             "post:staticmethod": "implies(self.kind is FunctionKind.STATIC, result == concat(prefix, '@staticmethod\\n', %s))" % _STRIPPED,
+             "post:property": "implies(self.kind is FunctionKind.PROPERTY, result == concat(prefix, '@property\\n', %s))" % _STRIPPED,
+             "post:cached-property": "implies(self.kind is FunctionKind.DJANGO_CACHED_PROPERTY, result == concat(prefix, '@cached_property\\n', %s))" % _STRIPPED,
+             "post:plain": "implies(self.kind is FunctionKind.MODULE or self.kind is FunctionKind.INSTANCE, result == %s)" % _STRIPPED,
+         },
+         loops={0: {"iter": "sorted(self.strip_modules, key=len, reverse=True)",
+                    "inv": {"fold": "s == stripn_(pre_loop('s'), _seq, _i)"}}},
+         note="re.sub / re.escape and the order sorted() produces are uninterpreted (the text of annotations is bounded, C11)")
+
+_DESC = "lookup_(func.__module__, func.__qualname__)"
+contract("monkeytype.stubs:FunctionKind.from_callable", props=["C12"], theories=TH + ["stubs", "enc", "cli", "path"],
+         params={"cls": "any", "func": "Func"}, result="Enum:FunctionKind",
+         requires={"names": "is_str_(func.__module__) and is_str_(func.__qualname__)"},
+         # the kind is read off the descriptor found (statically) under the function's qualified name: that is what decides the decorator of the stub
+         ensures={"post:module": "implies(not contains_dot(func.__qualname__), result is FunctionKind.MODULE)",
+                  "post:classmethod": "implies(contains_dot(func.__qualname__) and is_classmethod(%s), result is FunctionKind.CLASS)" % _DESC,
+                  "post:staticmethod": "implies(contains_dot(func.__qualname__) and not is_classmethod(%s) and is_staticmethod(%s), result is FunctionKind.STATIC)" % (_DESC, _DESC),
+                  "post:property": "implies(contains_dot(func.__qualname__) and not is_classmethod(%s) and not is_staticmethod(%s) and okind(%s) is OK_property, result is FunctionKind.PROPERTY)" % (_DESC, _DESC, _DESC),
+                  "post:instance": "implies(contains_dot(func.__qualname__) and not is_classmethod(%s) and not is_staticmethod(%s) and okind(%s) is not OK_property"
+                                   " and not (DJANGO_CP is not None and okind(%s) is OK_cached_property), result is FunctionKind.INSTANCE)" % (_DESC, _DESC, _DESC, _DESC)},
+         raises={"NameLookupError": "not resolvable(func.__module__, func.__qualname__)"},
+         note="inspect.getattr_static is modelled like getattr on the lookup environment (no descriptor protocol): assumed")
